@@ -210,9 +210,71 @@ def _progress_rule(chk, prog, cg):
         raise AnalysisBroken("only %d persistent-offset copies found" % pairs)
 
 
+def _wstatus_rule(chk, prog):
+    """POSIX: WEXITSTATUS(s) is meaningful only if WIFEXITED(s), WTERMSIG(s) only if WIFSIGNALED(s), WSTOPSIG(s)
+    only if WIFSTOPPED(s).  A subprocess's exit code is reported exactly only if each accessor is applied on
+    paths where its own predicate - and not merely a sibling's - was established."""
+    rule = "C16-WSTATUS"
+    chk.rule(rule, "wait-status accessors (WEXITSTATUS/WTERMSIG/WSTOPSIG) are applied only where their own predicate (WIFEXITED/WIFSIGNALED/WIFSTOPPED) holds")
+    PRED = {"WEXITSTATUS": "WIFEXITED", "WTERMSIG": "WIFSIGNALED", "WSTOPSIG": "WIFSTOPPED"}
+    n = 0
+
+    def which(x, names):
+        ms = x.macro_names()
+        # the user-level macro is the outermost (last) one
+        for m in reversed(ms):
+            m = m.rstrip("@")
+            if m in names:
+                return m
+            if not m.startswith("__"):
+                return None
+        return None
+
+    for fn in prog.tus["os.c"].funcs.values():
+        uses = {}
+        for x in fn.nodes:
+            a = which(x, PRED)
+            if a and x.k == "bin":
+                uses.setdefault((a, x.ln), x)
+        if not uses:
+            continue
+        chk.analysed(fn)
+
+        def transfer(st, x):
+            return st
+
+        def edge(st, blk, succ, cond, truth):
+            c, t = flow.strip_not(flow.strip_expect(cond), truth)
+            if c is None:
+                return st
+            p = which(c, set(PRED.values()))
+            if p:
+                return frozenset(f for f in st if f[0] != p) | {(p, t)}
+            return st
+        IN, OUT, T = flow.forward_paths(fn, frozenset(), transfer, edge=edge)
+        done = set()
+        for x, S in flow.states_at(fn, IN, T):
+            a = which(x, PRED)
+            if not a or x.k != "bin" or (a, x.ln) in done:
+                continue
+            done.add((a, x.ln))
+            n += 1
+            chk.instance(rule)
+            bad = [ps for ps in S if (PRED[a], True) not in ps]
+            if bad:
+                held = sorted(p for p, t in bad[0] if t)
+                chk.violation(rule, "os.c", fn.name, a, x.loc,
+                              "%s() is applied on a path where %s() was not established (established there: %s): the reported "
+                              "exit status of a subprocess is decoded with the wrong accessor" % (a, PRED[a], ", ".join(held) or "nothing"))
+            else:
+                chk.ok(rule, "%s: %s only under %s" % (fn.name, a, PRED[a]))
+    chk.floor(rule, 2, n)
+
+
 def run(chk):
     prog = Program.load("default")
     cg = CallGraph(prog)
     _result_rule(chk, prog)
     _wake_rule(chk, prog, cg)
     _progress_rule(chk, prog, cg)
+    _wstatus_rule(chk, prog)
